@@ -374,7 +374,10 @@ def _indent_remover_table(ctx, res, rule):
                 bad = None
                 if o["exit"] == "break" and isinstance(o["value"], A.Lit) and o["value"].v is True:
                     outcome = "found"
-                    if not examined or not (is_nl and boundary):
+                    at_start = any(k in ("ord(0, cursor)", "ord(cursor, 0)") and v == "=" for k, v in o["decisions"].items()) and not any(e[0] == "examine" for e in o["effects"])
+                    if at_start:
+                        pass        # the start of the file is a line start: nothing is examined, nothing non-blank is skipped
+                    elif not examined or not (is_nl and boundary):
                         bad = "accepts byte %s (boundary=%s) as the line break that precedes the indentation" % (cname_, boundary)
                 elif o["exit"] in ("fall", "continue"):
                     outcome = "advance"
